@@ -13,8 +13,8 @@ PROOF_TIMEOUT = 1500
 ALLOWED_AXIOMS = ()
 RULE = ('one case = one Configurator (2-10 add_view calls: context in class tree A>B>C / interface / unrelated / none, '
         'view name, global or route-bound with and without use_global_views, 0-3 predicates drawn from every built-in '
-        'incl. accept, custom, third-party and not_, occasional same-phash re-registrations and secured views) x 12-16 '
-        'requests through Router.__call__; non-trivial = the case has >= 3 registrations, at least one request on which '
+        'incl. accept, custom, third-party and not_, occasional same-phash re-registrations and secured views) x 10-20 '
+        'requests through Router.__call__, each sent at a chosen moment of the commit history (warm lookup cache) and compared with the model on the registrations committed so far; non-trivial = the case has >= 3 registrations, at least one request on which '
         'a view body ran after the lookup had at least two name-matching registrations in range, and at least one request '
         'that ended in Not Found or ran a different body; distinct by full case')
 ASSUMPTIONS = [
@@ -192,9 +192,23 @@ def gen_case(rng):
     if rng.random() < 0.5:                        # else: 1-3 explicit commits
         commits = sorted(need | set(rng.sample(range(nv), rng.choice([0, 1, 2]))))
     case = {'routes': routes, 'third': third, 'views': views, 'commits': commits, 'requests': []}
-    for _ in range(rng.choice([12, 14, 16])):
-        case['requests'].append(gen_request(rng, case))
+    points = _points(case)
+    for _ in range(rng.choice([10, 12, 14])):
+        r = gen_request(rng, case)
+        r['after'] = nv if rng.random() < 0.45 else rng.choice(points)
+        case['requests'].append(r)
+        if rng.random() < 0.4:                    # the same request again at another moment of the history
+            case['requests'].append(dict(r, after=rng.choice(points)))
+    case['requests'].sort(key=lambda r: r['after'])
     return case
+
+
+def _points(case):
+    """numbers of committed registrations at which requests can be sent"""
+    n = len(case['views'])
+    if case['commits'] is None:
+        return list(range(n + 1))
+    return sorted({0, n} | {c + 1 for c in case['commits']})
 
 
 def generate(rng, tier, n):
@@ -254,6 +268,8 @@ def valid(case):
             if not set(v['nots']) <= set(v['preds']) - {'custom'}:
                 return False
         for r in case['requests']:
+            if _after(r, len(case['views'])) not in _points(case):
+                return False
             if not (r['route'] is None or r['route'] in rn) or r['path'] not in PATHS or r['vname'] not in VNAMES:
                 return False
             if r['method'] not in METHODS or r['accept'] not in ACCEPT_HEADERS or r['mp'] not in ('1', '2', ' 1'):
@@ -282,10 +298,18 @@ def shrinks(case):
             cm = case['commits']
             if cm is not None:
                 cm = sorted({c - 1 if c >= i else c for c in cm} - {-1})
-            yield dict(case, views=l[:i] + l[i + 1:], commits=cm)
+            n = len(l)
+            rs = [dict(r, after=(_after(r, n) - 1 if _after(r, n) > i else _after(r, n))) for r in case['requests']]
+            yield dict(case, views=l[:i] + l[i + 1:], commits=cm, requests=rs)
     if case['commits']:
         for i in range(len(case['commits'])):
             yield dict(case, commits=case['commits'][:i] + case['commits'][i + 1:])
+    if case['commits'] is not None:
+        yield dict(case, commits=None)
+    n = len(case['views'])
+    for i, r in enumerate(case['requests']):
+        if _after(r, n) != n:
+            yield dict(case, requests=case['requests'][:i] + [dict(r, after=n)] + case['requests'][i + 1:])
     for i, v in enumerate(case['views']):
         for n in sorted(v['preds']):
             p = dict(v['preds'])
@@ -425,19 +449,32 @@ def _find_resource(path):
 class World:
     """Real Configurator + app for a case, and everything the model needs as oracle input."""
 
-    def __init__(self, case):
+    def __init__(self, case, serve=False):
+        """serve=True: requests are sent as soon as the registrations they wait for ('after') are committed,
+        so later commits happen against a warm view-lookup cache; results in self.results."""
         if not _P:
             setup('quick')
         P = _P
         self.case = case
+        self.serve = serve
         self.batched = case.get('commits') is not None
         self._build(case, self.batched)
         if self.conflict:                 # a batch held two views with one discriminator: replay one commit per add_view
             self._build(case, False)
 
+    def _send(self, k, final=False):
+        """send the requests waiting for exactly k committed registrations (all the remaining ones when final)"""
+        if not self.serve:
+            return
+        n = len(self.case['views'])
+        for i, r in enumerate(self.case['requests']):
+            if self.results[i] is None and (final or _after(r, n) == k):
+                self.results[i] = self.run(r)
+
     def _build(self, case, batched):
         P = _P
         self.made, self.failed, self.conflict = {}, set(), False
+        self.results = [None] * len(case['requests'])
         world = self
         cfg = P['Configurator'](autocommit=not batched, root_factory=lambda request: P['root'])
         cfg.set_security_policy(P['Policy']())
@@ -471,7 +508,8 @@ class World:
             self.route_iface[r['name']] = cfg.registry.getUtility(P['IRouteRequest'], name=r['name'])
         self.cfg = cfg
         self.args = []
-        from pyramid.exceptions import ConfigurationConflictError
+        self.app = cfg.make_wsgi_app()       # one Router for the whole history; the registry (and its cache) is shared
+        self._send(0)
         for i, v in enumerate(case['views']):
             self.args.append(self._add_view(v))
             if batched and i in case['commits']:
@@ -480,12 +518,16 @@ class World:
                 except Exception:       # conflict, or a predicate factory rejecting its value at commit time
                     self.conflict = True
                     return
+            if not batched or i in case['commits']:
+                self._send(i + 1)
         try:
-            self.app = cfg.make_wsgi_app()
+            cfg.commit()
         except Exception:
             if not batched:
                 raise
             self.conflict = True
+            return
+        self._send(len(case['views']), final=True)
 
     def iid(self, spec):
         return self.ids.setdefault(spec, len(self.ids))
@@ -669,9 +711,15 @@ def world(case):
 
 
 # ------------------------------------------------------------------ wire
+def _after(r, n):
+    a = r.get('after')
+    return n if a is None else a
+
+
 def to_wire(case):
     w = world(case)
-    return [w.extra, w.args, [w.oracle(r) for r in case['requests']]]
+    n = len(case['views'])
+    return [w.extra, w.args, [[_after(r, n), w.oracle(r)] for r in case['requests']]]
 
 
 def from_wire(case, raw):
@@ -684,8 +732,8 @@ def from_wire(case, raw):
 
 # ------------------------------------------------------------------ implementation
 def run_impl(case):
-    w = world(case)
-    return [w.mades(), [w.run(r) for r in case['requests']]]
+    w = World(case, serve=True)          # always a fresh registry: the history of served requests matters
+    return [w.mades(), w.results]
 
 
 # ------------------------------------------------------------------ judging
@@ -769,6 +817,12 @@ def kinds(case, obs):
     k = []
     if not (isinstance(obs, list) and len(obs) == 2):
         return ['odd']
+    nviews = len(case['views'])
+    for r, res in zip(case['requests'], obs[1]):
+        if _after(r, nviews) < nviews:
+            k.append('req:sent-between-commits')
+            if res and res[0] == 1:
+                k.append('req:ran-between-commits')
     for res in obs[1]:
         k.append({1: 'req:ran', 0: 'req:notfound'}.get(res[0], 'req:odd') if res else 'req:odd')
         if res and res[0] == 0:
